@@ -104,7 +104,9 @@ func (c *cache) Set(key, val []byte) bool {
 
 	it2, exists := c.items[string(key)]
 	if exists {
-		listUnlink(&it2.used)
+		if c.conf.EnableLRU {
+			listUnlink(&it2.used)
+		}
 		c.size -= uint(len(it2.key) + len(it2.value))
 	}
 	c.items[string(key)] = &it
@@ -139,7 +141,9 @@ func (c *cache) Del(key []byte) {
 		c.lock.Unlock()
 		return
 	}
-	listUnlink(&it.used)
+	if c.conf.EnableLRU {
+		listUnlink(&it.used)
+	}
 	c.size -= uint(len(it.key) + len(it.value))
 	delete(c.items, string(key))
 	c.lock.Unlock()
